@@ -175,6 +175,11 @@ def functional64(qm, kind, x64, w64, b64):
 
 
 def exec_function(case):
+    with M.repeatable_kernels(case["kind"] == "conv"):
+        return _exec_function(case)
+
+
+def _exec_function(case):
     out = Outcome()
     dtype = gen.DT[case["dtype"]]
     g = torch.Generator().manual_seed(case["seed"])
